@@ -365,6 +365,9 @@ def opVecDGen (op : String) (ws : List String) : Option String :=
   | "RelEntropy" =>
     let y : Array Float := ((chunks 8 ((argHex? ws "y").getD [])).map codecD.dec).toArray
     if y.size != x.size then some "bad-op" else sc (Gen.esl_vec_DRelEntropy x y n)
+  | "Validate" => some (match Gen.esl_vec_DValidate x n (codecD.ofArg ws) with | some r => stat (r == 0) | none => "fault")
+  | "LogValidate" => some (match Gen.esl_vec_DLogValidate x n (codecD.ofArg ws) with | some r => stat (r == 0) | none => "fault")
+  | "Log2Validate" => some (match Gen.esl_vec_DLog2Validate x n (codecD.ofArg ws) with | some r => stat (r == 0) | none => "fault")
   | _ => none
 
 /-- the same routines over `float` as REGENERATED (binary32 cells, the double sub-expressions of the C text at `Float`: `VMix Float32 Float`) -/
@@ -389,6 +392,9 @@ def opVecFGen (op : String) (ws : List String) : Option String :=
   | "RelEntropy" =>
     let y : Array Float32 := ((chunks 4 ((argHex? ws "y").getD [])).map codecF.dec).toArray
     if y.size != x.size then some "bad-op" else sc (Gen.esl_vec_FRelEntropy x y n)
+  | "Validate" => some (match Gen.esl_vec_FValidate x n (codecF.ofArg ws) with | some r => stat (r == 0) | none => "fault")
+  | "LogValidate" => some (match Gen.esl_vec_FLogValidate x n (codecF.ofArg ws) with | some r => stat (r == 0) | none => "fault")
+  | "Log2Validate" => some (match Gen.esl_vec_FLog2Validate x n (codecF.ofArg ws) with | some r => stat (r == 0) | none => "fault")
   | _ => none
 
 /-- both models of a routine must agree (the regenerated one and the hand model that carries the real-number theorems) -/
@@ -410,13 +416,13 @@ def opVec (ws : List String) : String :=
     let nPre (k : Nat) : Nat := match argInt? ws "n" with | some j => if j < (k : Int) && j ≥ 0 then j.toNat else k | none => k
     let gen : Option String := match T with
       | 'D' => match opVecDGen op ws with
-               | some g => some (agree g (opVecD op ((doubles xb).take (nPre (xb.length / 8))) ((doubles yb).take (nPre (xb.length / 8))) (Float.ofBits (UInt64.ofNat sbits)) m))
+               | some g => some (statE ws (agree g (opVecD op ((doubles xb).take (nPre (xb.length / 8))) ((doubles yb).take (nPre (xb.length / 8))) (Float.ofBits (UInt64.ofNat sbits)) m)))
                | none =>
                  if op == "CDF" || op == "CDFInPlace" then
                    (opVecGen codecD "D" op ws).map fun g => agree g (opVecD op ((doubles xb).take (nPre (xb.length / 8))) [] 0 m)
                  else opVecGen codecD "D" op ws
       | 'F' => match opVecFGen op ws with
-               | some g => some (agree g (opVecF op ((floats xb).take (nPre (xb.length / 4))) ((floats yb).take (nPre (xb.length / 4))) (Float32.ofBits (UInt32.ofNat sbits)) m))
+               | some g => some (statE ws (agree g (opVecF op ((floats xb).take (nPre (xb.length / 4))) ((floats yb).take (nPre (xb.length / 4))) (Float32.ofBits (UInt32.ofNat sbits)) m)))
                | none =>
                if op == "CDF" || op == "CDFInPlace" then
                  (opVecGen codecF "F" op ws).map fun g => agree g (opVecF op ((floats xb).take (nPre (xb.length / 4))) [] 0 m)
@@ -511,11 +517,18 @@ def opCmpOld (ws : List String) : String :=
 def opCvt (ws : List String) : String :=
   let xb := (argHex? ws "x").getD []
   let i32 (bs : List UInt8) : List Int32 := (chunks 4 bs).map fun c => (UInt32.ofNat (leNat c)).toInt32
+  -- the conversion routines as REGENERATED from esl_vectorops.c, and the hand model: both run, they must agree
+  let gf (o : Option (Array Float32)) : String := match o with | some r => "ok " ++ hexOrDash (fbytes r.toList) | none => "fault"
+  let gd (o : Option (Array Float)) : String := match o with | some r => "ok " ++ hexOrDash (dbytes r.toList) | none => "fault"
   match arg? ws "op" with
-  | some "D2F" => "ok " ++ hexOrDash (fbytes (d2f (doubles xb)))
-  | some "F2D" => "ok " ++ hexOrDash (dbytes (f2d (floats xb)))
-  | some "I2F" => "ok " ++ hexOrDash (fbytes (i2f (i32 xb)))
-  | some "I2D" => "ok " ++ hexOrDash (dbytes (i2d (i32 xb)))
+  | some "D2F" => let v := (doubles xb).toArray
+                  agree (gf (Gen.esl_vec_D2F v v.size (Array.replicate v.size (0 : Float32)))) ("ok " ++ hexOrDash (fbytes (d2f (doubles xb))))
+  | some "F2D" => let v := (floats xb).toArray
+                  agree (gd (Gen.esl_vec_F2D v v.size (Array.replicate v.size (0 : Float)))) ("ok " ++ hexOrDash (dbytes (f2d (floats xb))))
+  | some "I2F" => let v := (i32 xb).toArray
+                  agree (gf (Gen.esl_vec_I2F v v.size (Array.replicate v.size (0 : Float32)))) ("ok " ++ hexOrDash (fbytes (i2f (i32 xb))))
+  | some "I2D" => let v := (i32 xb).toArray
+                  agree (gd (Gen.esl_vec_I2D v v.size (Array.replicate v.size (0 : Float)))) ("ok " ++ hexOrDash (dbytes (i2d (i32 xb))))
   | _ => "bad-op"
 
 def step (s : Unit) (line : String) : Unit × String :=
